@@ -27,6 +27,7 @@ type incFile struct {
 	Version int      `json:"version"`
 	Pad     int      `json:"pad"` // extra bytes of comment
 	Dirs    []incDir `json:"dirs"`
+	Bad     int      `json:"bad,omitempty"` // lines with a syntax error at the end of the file
 }
 type c10Case struct {
 	Files    []incFile `json:"files"`
@@ -114,6 +115,9 @@ func (l incLayout) content(f incFile) string {
 	if f.Pad > 0 {
 		sb.WriteString("; " + strings.Repeat("x", f.Pad) + "\n")
 	}
+	for i := 0; i < f.Bad; i++ {
+		sb.WriteString("@@ broken\n")
+	}
 	return sb.String()
 }
 
@@ -193,7 +197,7 @@ func (l incLayout) idOf(p string) int {
 }
 
 func (l incLayout) gObs(res *include.ResolvedJournal, errs []include.LoadError) string {
-	var order, files, es []string
+	var order, files, es, pes []string
 	if res != nil {
 		for _, p := range res.FileOrder {
 			order = append(order, fmt.Sprint(l.idOf(p)))
@@ -229,13 +233,16 @@ func (l incLayout) gObs(res *include.ResolvedJournal, errs []include.LoadError) 
 		case include.ErrorFileTooLarge:
 			kind = "ETooLarge"
 		case include.ErrorParseError:
+			// the syntax errors of the loaded files are part of the result too (not modelled: the
+			// C11 oracle compares them between the shared and the fresh loader)
+			pes = append(pes, fmt.Sprintf("(%d, %d)", l.idOf(e.Path), e.Range.Start.Line))
 			continue
 		default:
 			kind = "ENotFound"
 		}
 		es = append(es, fmt.Sprintf("(mkErr %s %d %d)", kind, l.idOf(e.Path), e.Range.Start.Line))
 	}
-	return fmt.Sprintf("(mkObs %s %s %s %s)", gBool(res == nil), gList(order), gList(files), gList(es))
+	return fmt.Sprintf("(mkObs %s %s %s %s %s)", gBool(res == nil), gList(order), gList(files), gList(es), gList(pes))
 }
 
 func (l incLayout) write(f incFile) error {
@@ -266,6 +273,10 @@ func genIncFile(r *rng, id, nfiles int, st *stats, sub bool) incFile {
 	if r.chance(12) {
 		f.Pad = 400
 		st.count("file:big")
+	}
+	if r.chance(20) {
+		f.Bad = r.rangeInt(1, 2)
+		st.count("file:syntax-errors")
 	}
 	nd := pickW(r, []int{0, 1, 2, 3, 4}, []int{25, 35, 25, 10, 5})
 	for j := 0; j < nd; j++ {
